@@ -6,6 +6,8 @@ let () =
     | "solve" -> Plevel_cmd.run_solve_full
     | "ctx" -> Plevel_cmd.run_ctx
     | "view" -> Plevel_cmd.run_view
+    | "lp" -> Lp_cmd.run_case
+    | "lpjudge" -> Lp_cmd.judge
     | _ -> prerr_endline ("unknown sub-command " ^ sub); exit 2 in
   (try
      while true do
